@@ -41,5 +41,10 @@ def _real_loop(ctx, idx, rng):
     return True
 
 
+def _profile(rng):
+    # (C09 only) the master host's clock is stepped back now and then: what is published must equal the model all the same
+    return mdrv.MProfile(weights={'clock_back': 2, 'server_cap': 5} if rng.random() < 0.5 else None)
+
+
 def run(ctx):
-    mengine.run_histories(ctx, ['C09'], special=_real_loop)
+    mengine.run_histories(ctx, ['C09'], profile_for=_profile, special=_real_loop)
